@@ -88,6 +88,8 @@ class SimCommunicator(kiwipy.CommunicatorHelper):
         self.broadcast_faults_fired = 0
         self.subscribe_timeouts = set()  # {'rpc', 'broadcast'} -> registration raises kiwipy.TimeoutError
         self.subscribe_timeouts_fired = 0
+        self.unsubscribe_timeouts = set()  # {'rpc', 'broadcast'} -> un-registration raises kiwipy.TimeoutError (nothing removed)
+        self.unsubscribe_timeouts_fired = 0
         self.delivery_queue = []  # delivery options (delay/duplicate/reorder) for the next sends of the environment, FIFO
         self.rpc_deliveries = []  # (recipient, msg, routed?) in delivery order
         self.task_deliveries = []
@@ -104,6 +106,18 @@ class SimCommunicator(kiwipy.CommunicatorHelper):
             self.subscribe_timeouts_fired += 1
             raise kiwipy.TimeoutError('injected: add_broadcast_subscriber timed out')
         return super().add_broadcast_subscriber(subscriber, identifier)
+
+    def remove_rpc_subscriber(self, identifier):
+        if 'rpc' in self.unsubscribe_timeouts:
+            self.unsubscribe_timeouts_fired += 1
+            raise kiwipy.TimeoutError('injected: remove_rpc_subscriber timed out')
+        return super().remove_rpc_subscriber(identifier)
+
+    def remove_broadcast_subscriber(self, identifier):
+        if 'broadcast' in self.unsubscribe_timeouts and not str(identifier).startswith('sim-'):
+            self.unsubscribe_timeouts_fired += 1
+            raise kiwipy.TimeoutError('injected: remove_broadcast_subscriber timed out')
+        return super().remove_broadcast_subscriber(identifier)
 
     def _next_options(self, explicit):
         if explicit:
